@@ -15,6 +15,7 @@ for cid in ri:
     a, b = ri[cid], rm.get(cid)
     na = 'ok' if a == 'ok' else a.split(':',1)[-1]
     nb = 'ok' if b == 'ok' else (b or '?').split(':',1)[-1]
+    na = 'diverge' if na == 'stack_overflow' else na
     if na != nb:
         bad += 1
         if bad <= 8: print('RESULT', cid, 'impl', a, 'model', b)
